@@ -34,7 +34,9 @@ var clFlags = []string{"no-doc", "indent=0", "indent=4", "indent=1", "unwrapScal
 	// flags of the command itself: pretty print (the expression is piped into `... style=""`), colours, the old -j, the expression in a file
 	"prettyPrint", "colors", "no-colors", "tojson", "from-file"}
 
-var clExprs = []string{".", ".", ".a", ".[]", "..", ".s", "[.a, .s]", ".b", "keys", "length", `"\(.a)-\(.s)"`, ".a | tostring", ". as $x | $x.s", "to_entries", ".b[0]", `{"k": .s}`, "[.. | select(tag == \"!!str\")]", ".root", ".root.s", ".[0]", ".t"}
+var clExprs = []string{".", ".", ".a", ".[]", "..", ".s", "[.a, .s]", ".b", "keys", "length", `"\(.a)-\(.s)"`, ".a | tostring", ". as $x | $x.s", "to_entries", ".b[0]", `{"k": .s}`, "[.. | select(tag == \"!!str\")]", ".root", ".root.s", ".[0]", ".t",
+	// a comment at the end of the expression (with and without a line end), brackets that do not balance
+	".a # the a", ".s # note\n", ". # all\n", ".a) | (.b", "(.a", ".a | (.s))", "[.a, .s] # pair"}
 
 var clInputs = map[string][]string{
 	"yaml":  {"a: 1\nb: [x, y]\ns: hello world\n", "# head\na: 1 # line\nb:\n  - x\n  - y\ns: 'hello world'\n---\na: 2\ns: two\n", "- {a: 1, s: p q}\n- {a: 2, s: r}\n", "a: &x {k: v}\nb: [*x]\ns: \"q\"\n"},
@@ -71,6 +73,20 @@ func genCL(t *rapid.T) CLCase {
 		}
 	}
 	c.Flags = rapid.SliceOfNDistinct(rapid.SampledFrom(clFlags), 0, 3, func(s string) string { return strings.SplitN(s, "=", 2)[0] }).Draw(t, "flags")
+	if rapid.IntRange(0, 7).Draw(t, "prettyscenario") == 0 {
+		// pretty printing is text appended to the expression: what the expression ends in (a comment, a line end,
+		// coming from a file) decides whether it still applies - on a document whose style is not the idiomatic one
+		c.In, c.Out = "yaml", "yaml"
+		c.Input = rapid.SampledFrom([]string{"a: {b: \"new\", l: [1, 2]}\n\"q\": 'yes'\n", clInputs["yaml"][1], clInputs["yaml"][0]}).Draw(t, "pinput")
+		c.Expr = rapid.SampledFrom([]string{".", ". # all", ". # all\n", ".a # the a", ".a |= . # same", "# first line\n. # last line", ".b", ". | . # piped\n\n", "  .  "}).Draw(t, "pexpr")
+		c.Flags = []string{"prettyPrint"}
+		if rapid.Bool().Draw(t, "pfile") {
+			c.Flags = append(c.Flags, "from-file")
+		}
+		if rapid.IntRange(0, 3).Draw(t, "pextra") == 0 {
+			c.Flags = append(c.Flags, rapid.SampledFrom([]string{"no-doc", "indent=4", "unwrapScalar=false"}).Draw(t, "pflag"))
+		}
+	}
 	return c
 }
 
@@ -152,6 +168,10 @@ func has(fl []string, name string) bool {
 func checkCL(c CLCase) hx.Verdict {
 	lo := c.libOpts()
 	expr := c.Expr
+	if has(c.Flags, "from-file") && !strings.HasSuffix(expr, "\n") {
+		expr += "\n" // an expression file ends in a line end, which is part of the expression text
+	}
+	expr0 := expr
 	if has(c.Flags, "prettyPrint") {
 		expr = expr + " | " + yqlib.PrettyPrintExp
 	}
@@ -190,7 +210,7 @@ func checkCL(c CLCase) hx.Verdict {
 	}
 	if fromFile {
 		ef := filepath.Join(workdir(), "expr.yq")
-		_ = os.WriteFile(ef, []byte(c.Expr), 0o644)
+		_ = os.WriteFile(ef, []byte(expr0), 0o644)
 		args = append(args, "--from-file", ef, "-")
 	} else {
 		args = append(args, "--expression", c.Expr, "-")
